@@ -81,9 +81,15 @@ def r1_split_then_decode(run):
         raise UnknownIdiom('%s: the partition is not applied to the variable of a field loop' % PQS)
     it = loop.iter
     if not (isinstance(it, ast.Call) and isinstance(it.func, ast.Attribute) and it.func.attr == 'split' and it.args
-            and isinstance(it.args[0], ast.Constant) and _is_name(it.func.value, qs)):
+            and _is_name(it.func.value, qs)):
         raise UnknownIdiom('%s: field loop iterates %s' % (PQS, short(it)))
-    run.check(it.args[0].value == '&' and len(it.args) == 1, 'fields are obtained by splitting the whole query string on "&"', f, it)
+    sep = _separator_value(p, f, it.args[0])
+    if sep is UNK:
+        raise UnknownIdiom('%s: field loop iterates %s' % (PQS, short(it)))
+    run.check(sep == '&' and len(it.args) == 1 and not it.keywords, 'fields are obtained by splitting the whole query string on "&"', f, it,
+              witness=None if isinstance(it.args[0], ast.Constant) else ['%s = %r in every call made inside the package (its default; no call passes it)'
+                                                                          % (short(it.args[0]), sep)],
+              runtime_witness='"a=1&b=2" is read as the single parameter a -> "1&b=2" (or fields are cut at another character)')
 
     # the CSV splits and what becomes of their pieces: decided per path (see _CsvWalk)
     field = loop.target.id
@@ -137,6 +143,22 @@ def r1_split_then_decode(run):
     run.check(not bad, 'a field is dropped only when its value is blank, and "name=" is dropped iff keep_blank is off '
               '(truth table over value/name/keep_blank)', f, conts[0].ast, where='%s:%s' % (f.file, conts[0].lineno), witness=bad,
               runtime_witness='?a=&b=1 parsed against the keep_blank_qs_values setting')
+
+
+def _separator_value(p, f: Func, e):
+    """The separator handed to split(): a literal, or a parameter of `f` that is never re-bound, has a literal default
+    and is passed by no call of `f` anywhere in the package (positionally, by keyword, through * / **; `f` is only ever
+    called there, not handed on as a value): for the requests the framework parses it then IS its default."""
+    if isinstance(e, ast.Constant):
+        return e.value
+    if isinstance(e, ast.Name) and e.id in f.params():
+        from .c10 import _unpassed_defaults
+        if any(isinstance(x, ast.Name) and x.id == e.id and isinstance(x.ctx, (ast.Store, ast.Del)) for x in ast.walk(f.node)):
+            return UNK
+        d = _unpassed_defaults(p, f, [e.id]).get(e.id)
+        if isinstance(d, ast.Constant):
+            return d.value
+    return UNK
 
 
 def _owner_comp(par, c):
@@ -633,6 +655,76 @@ def _raise_class(p, f, r: ast.Raise) -> Optional[str]:
     return p.resolve_expr(f.module, e, f)
 
 
+def _last_occurrence_split(run, f: Func, g: Func, tag: str) -> bool:
+    """The `isinstance(<v>, list)` case split that picks one occurrence of a repeated parameter, read in `g` (the getter
+    `f` itself or a one-parameter module-level helper `f` hands the table entry to).  Reports, for `f`'s template, that
+    the list arm takes `[-1]`.  False when `g` holds no such split.  Shapes: `if isinstance(v, list): v = v[-1]`,
+    `v[-1] if isinstance(v, list) else v`, and in a helper `if isinstance(v, list): return v[-1]` with every other
+    return handing back `v` itself."""
+    def _isinst_list(x):
+        return isinstance(x, ast.Call) and _is_name(x.func, 'isinstance') and len(x.args) == 2 and _is_name(x.args[1], 'list')
+
+    helper = g is not f
+    where_fn = g
+    what = '%s: of a repeated parameter the LAST occurrence is converted' % tag
+    iso = [n for n in walk_no_nested(g.node) if isinstance(n, ast.If) and any(_isinst_list(x) for x in walk_self(n.test))]
+    iso_exp = [n for n in walk_no_nested(g.node) if isinstance(n, ast.IfExp) and any(_isinst_list(x) for x in walk_self(n.test))]
+    if not iso and not iso_exp:
+        return False
+    if helper:
+        hp = g.params()[0]
+        if any(isinstance(x, ast.Name) and x.id == hp and isinstance(x.ctx, (ast.Store, ast.Del)) for x in ast.walk(g.node)
+               if not any(isinstance(s, ast.Assign) and x in s.targets and isinstance(s.value, ast.Subscript) and _is_name(s.value.value, hp)
+                          for n in iso for s in n.body)):
+            raise UnknownIdiom('%s: the helper %s re-binds its parameter' % (f.qual, g.qual))
+    for node in iso_exp:
+        # `<v>[-1] if isinstance(<v>, list) else <v>` (either polarity): the same split as an expression
+        call = [x for x in walk_self(node.test) if _isinst_list(x)][0]
+        var = call.args[0]
+        if not isinstance(var, ast.Name) or (helper and var.id != hp):
+            raise UnknownIdiom('%s: isinstance on %s' % (g.qual, short(var)))
+        islist = implied(node.test, True, lambda e: e is call)
+        if islist is None:
+            raise UnknownIdiom('%s: list case split %s not understood' % (g.qual, short(node.test)))
+        arm_list, arm_one = (node.body, node.orelse) if islist else (node.orelse, node.body)
+        if not (isinstance(arm_list, ast.Subscript) and _is_name(arm_list.value, var.id) and not isinstance(arm_list.slice, ast.Slice)
+                and (_is_name(arm_one, var.id) or (isinstance(arm_one, ast.List) and len(arm_one.elts) == 1 and _is_name(arm_one.elts[0], var.id)))):
+            raise UnknownIdiom('%s: list case split %s not understood' % (g.qual, short(node, 80)))
+        run.check(short(arm_list.slice) == '-1', what, where_fn, node, runtime_witness='?x=1&x=2 read as 1')
+    list_returns = set()
+    for node in iso:
+        call = [x for x in walk_self(node.test) if isinstance(x, ast.Call) and _is_name(x.func, 'isinstance')][0]
+        var = call.args[0]
+        if not isinstance(var, ast.Name) or (helper and var.id != hp):
+            raise UnknownIdiom('%s: isinstance on %s' % (g.qual, short(var)))
+        islist = implied(node.test, True, lambda e: e is call)
+        handled = False
+        for s in node.body:
+            if isinstance(s, ast.Assign) and len(s.targets) == 1 and _is_name(s.targets[0], var.id):
+                v = s.value
+                if islist is True and isinstance(v, ast.Subscript) and _is_name(v.value, var.id) and not isinstance(v.slice, ast.Slice):
+                    handled = True
+                    run.check(short(v.slice) == '-1', what, where_fn, s, runtime_witness='?x=1&x=2 read as 1')
+                elif islist is False and isinstance(v, ast.List) and len(v.elts) == 1 and _is_name(v.elts[0], var.id):
+                    handled = True
+                    run.ok('%s: a single occurrence is wrapped into a list (all occurrences are kept)' % tag, g.loc(s), s)
+            elif helper and islist is True and isinstance(s, ast.Return) and isinstance(s.value, ast.Subscript) and _is_name(s.value.value, var.id) \
+                    and not isinstance(s.value.slice, ast.Slice) and len(node.body) == 1:
+                handled = True
+                list_returns.add(id(s))
+                run.check(short(s.value.slice) == '-1', what, where_fn, s, runtime_witness='?x=1&x=2 read as 1')
+        if not handled:
+            raise UnknownIdiom('%s: list case split %s not understood' % (g.qual, short(node.test)))
+    if helper:
+        # what the helper hands back otherwise is the entry itself (or, for the expression form, the split expression)
+        for r in [x for x in walk_no_nested(g.node) if isinstance(x, ast.Return)]:
+            if id(r) in list_returns:
+                continue
+            if not (_is_name(r.value, hp) or any(r.value is e for e in iso_exp)):
+                raise UnknownIdiom('%s: the helper %s returns %s' % (f.qual, g.qual, short(r.value, 60)))
+    return True
+
+
 def _getter(run, p, E, f: Func, cls):
     cfg = cfg_of(f, p)
     run.use_cfg(cfg)
@@ -661,49 +753,30 @@ def _getter(run, p, E, f: Func, cls):
 
     # ---- (a) last occurrence
     if table_reads:
-        iso = [n for n in walk_no_nested(f.node) if isinstance(n, ast.If) and any(
-            isinstance(x, ast.Call) and _is_name(x.func, 'isinstance') and len(x.args) == 2 and _is_name(x.args[1], 'list')
-            for x in walk_self(n.test))]
-        def _isinst_list(x):
-            return isinstance(x, ast.Call) and _is_name(x.func, 'isinstance') and len(x.args) == 2 and _is_name(x.args[1], 'list')
-
-        iso_exp = [n for n in walk_no_nested(f.node) if isinstance(n, ast.IfExp) and any(_isinst_list(x) for x in walk_self(n.test))]
-        if not iso and not iso_exp:
-            raise UnknownIdiom('%s: no isinstance(<value>, list) case split' % f.qual)
-        for node in iso_exp:
-            # `<v>[-1] if isinstance(<v>, list) else <v>` (either polarity): the same split as an expression
-            call = [x for x in walk_self(node.test) if _isinst_list(x)][0]
-            var = call.args[0]
-            if not isinstance(var, ast.Name):
-                raise UnknownIdiom('%s: isinstance on %s' % (f.qual, short(var)))
-            islist = implied(node.test, True, lambda e: e is call)
-            if islist is None:
-                raise UnknownIdiom('%s: list case split %s not understood' % (f.qual, short(node.test)))
-            arm_list, arm_one = (node.body, node.orelse) if islist else (node.orelse, node.body)
-            if not (isinstance(arm_list, ast.Subscript) and _is_name(arm_list.value, var.id) and not isinstance(arm_list.slice, ast.Slice)
-                    and (_is_name(arm_one, var.id) or (isinstance(arm_one, ast.List) and len(arm_one.elts) == 1 and _is_name(arm_one.elts[0], var.id)))):
-                raise UnknownIdiom('%s: list case split %s not understood' % (f.qual, short(node, 80)))
-            run.check(short(arm_list.slice) == '-1', '%s: of a repeated parameter the LAST occurrence is converted' % tag, f, node,
-                      runtime_witness='?x=1&x=2 read as 1')
-        for node in iso:
-            call = [x for x in walk_self(node.test) if isinstance(x, ast.Call) and _is_name(x.func, 'isinstance')][0]
-            var = call.args[0]
-            if not isinstance(var, ast.Name):
-                raise UnknownIdiom('%s: isinstance on %s' % (f.qual, short(var)))
-            islist = implied(node.test, True, lambda e: e is call)
-            handled = False
-            for s in node.body:
-                if isinstance(s, ast.Assign) and len(s.targets) == 1 and _is_name(s.targets[0], var.id):
-                    v = s.value
-                    if islist is True and isinstance(v, ast.Subscript) and _is_name(v.value, var.id) and not isinstance(v.slice, ast.Slice):
-                        handled = True
-                        run.check(short(v.slice) == '-1', '%s: of a repeated parameter the LAST occurrence is converted' % tag, f, s,
-                                  runtime_witness='?x=1&x=2 read as 1')
-                    elif islist is False and isinstance(v, ast.List) and len(v.elts) == 1 and _is_name(v.elts[0], var.id):
-                        handled = True
-                        run.ok('%s: a single occurrence is wrapped into a list (all occurrences are kept)' % tag, f.loc(s), s)
-            if not handled:
-                raise UnknownIdiom('%s: list case split %s not understood' % (f.qual, short(node.test)))
+        if not _last_occurrence_split(run, f, f, tag):
+            # the case split may live in a plain module-level helper that is handed the table entry
+            # (`x = _last_value(params[name])`): the helper is read in place of the inline split
+            helpers = []
+            for c in walk_no_nested(f.node):
+                if not (isinstance(c, ast.Call) and len(c.args) == 1 and not c.keywords):
+                    continue
+                a = c.args[0]
+                if isinstance(a, ast.Name):
+                    binds = [n for n in walk_no_nested(f.node) if isinstance(n, ast.Assign) and any(_is_name(t, a.id) for t in n.targets)]
+                    a = binds[0].value if len(binds) == 1 else a
+                if not any(a is t for t in table_reads):
+                    continue
+                h = p.resolve_callable(f, c.func)
+                if isinstance(h, Func) and h.cls is None and h.parent is None and not h.is_async and not h.decorators \
+                        and len(h.params()) == 1 and not (h.node.args.vararg or h.node.args.kwarg or h.node.args.kwonlyargs) \
+                        and not any(isinstance(x, (ast.Yield, ast.YieldFrom, ast.Global, ast.Nonlocal)) for x in ast.walk(h.node)):
+                    helpers.append(h)
+            found = False
+            for h in {id(h): h for h in helpers}.values():
+                run.use(h)
+                found = _last_occurrence_split(run, f, h, tag) or found
+            if not found:
+                raise UnknownIdiom('%s: no isinstance(<value>, list) case split' % f.qual)
 
     # ---- (b) only the documented 400-class errors escape; handlers report HTTPInvalidParam
     summ = E.summary(f, cls)
@@ -926,6 +999,50 @@ def r3_getters(run):
 # R4 to_query_str
 # ---------------------------------------------------------------------------
 
+def _list_accumulators(f: Func):
+    """Locals of `f` used as an ordered text accumulator: bound once, to an empty list (`[]` / `list()`), every other
+    occurrence is the receiver of a one-argument `.append(...)` statement or the sole argument of `<literal>.join(...)`,
+    and there is exactly one such join.  -> (name -> the join's separator literal, name -> the join call).  (A list that is also sorted, sliced, indexed,
+    handed on ... is not read as one: it is not in the result.)"""
+    par = _parent_map(f.node)
+    out: Dict[str, str] = {}
+    out_join: Dict[str, ast.Call] = {}
+    stores: Dict[str, list] = {}
+    for n in walk_no_nested(f.node):
+        if isinstance(n, ast.Name) and isinstance(n.ctx, (ast.Store, ast.Del)):
+            stores.setdefault(n.id, []).append(n)
+    for name, sts in stores.items():
+        if len(sts) != 1 or name in f.params():
+            continue
+        st = par.get(id(sts[0]))
+        if not (isinstance(st, (ast.Assign, ast.AnnAssign)) and st.value is not None
+                and (st.targets == [sts[0]] if isinstance(st, ast.Assign) else st.target is sts[0])):
+            continue
+        v = st.value
+        if not ((isinstance(v, ast.List) and not v.elts) or (isinstance(v, ast.Call) and _is_name(v.func, 'list') and not v.args and not v.keywords)):
+            continue
+        seps, ok, n_app, joins = set(), True, 0, []
+        for n in ast.walk(f.node):
+            if not (isinstance(n, ast.Name) and n.id == name and isinstance(n.ctx, ast.Load)):
+                continue
+            up = par.get(id(n))
+            up2 = par.get(id(up)) if up is not None else None
+            up3 = par.get(id(up2)) if up2 is not None else None
+            if isinstance(up, ast.Attribute) and up.attr == 'append' and isinstance(up2, ast.Call) and up2.func is up and len(up2.args) == 1 \
+                    and not up2.keywords and isinstance(up3, ast.Expr):
+                n_app += 1
+            elif isinstance(up, ast.Call) and up.args == [n] and not up.keywords and isinstance(up.func, ast.Attribute) and up.func.attr == 'join' \
+                    and isinstance(up.func.value, ast.Constant) and isinstance(up.func.value.value, str):
+                seps.add(up.func.value.value)
+                joins.append(up)
+            else:
+                ok = False
+        if ok and n_app and len(joins) == 1:
+            out[name] = next(iter(seps))
+            out_join[name] = joins[0]
+    return out, out_join
+
+
 def r4_to_query_str(run):
     p = run.project
     f = p.func(TO_QS)
@@ -960,14 +1077,42 @@ def r4_to_query_str(run):
             return 'join-unencoded'
         return None
 
-    accs = [n for n in cfg.live_nodes() if n.kind == 'stmt' and isinstance(n.ast, ast.AugAssign) and isinstance(n.ast.op, ast.Add)
-            and isinstance(n.ast.target, ast.Name)]
+    # the ordered text accumulation: `query_str += <pair>` on a string, or `pieces.append(<pair>)` on a local list that
+    # is joined once (`''.join(pieces)` when every pair carries its own '&', `'&'.join(pieces)` when none does)
+    list_sep, list_join = _list_accumulators(f)
+    accs, pair_of, sep_of = [], {}, {}
+    for n in cfg.live_nodes():
+        if n.kind != 'stmt':
+            continue
+        a = n.ast
+        if isinstance(a, ast.AugAssign) and isinstance(a.op, ast.Add) and isinstance(a.target, ast.Name):
+            if any(isinstance(x, ast.Call) and isinstance(x.func, ast.Attribute) and x.func.attr == 'join' and len(x.args) == 1
+                   and isinstance(x.args[0], ast.Name) and x.args[0].id in list_sep for x in walk_self(a.value)):
+                continue        # the final assembly of a list accumulation, not a pair
+            accs.append(n)
+            pair_of[n.id], sep_of[n.id] = a.value, None
+        elif isinstance(a, ast.Expr) and isinstance(a.value, ast.Call) and isinstance(a.value.func, ast.Attribute) and a.value.func.attr == 'append' \
+                and isinstance(a.value.func.value, ast.Name) and a.value.func.value.id in list_sep:
+            accs.append(n)
+            pair_of[n.id], sep_of[n.id] = a.value.args[0], list_sep[a.value.func.value.id]
     if not accs:
         raise AnchorError('%s: no `query_str += ...` accumulation found' % TO_QS)
+    for lname, jc in list_join.items():
+        # the list is joined when it is complete: no append can follow the join
+        apps = [n.id for n in accs if sep_of[n.id] is not None and n.ast.value.func.value.id == lname]
+        if apps and flow.find_path(cfg, [node_of(cfg, jc)], apps) is not None:
+            raise UnknownIdiom('%s: %s is joined before the last append' % (TO_QS, lname))
     n_pairs = 0
     for n in accs:
-        parts = concat_parts(n.ast.value)
-        if len(parts) != 4:
+        parts = concat_parts(pair_of[n.id])
+        if sep_of[n.id] == '&' and len(parts) == 3:
+            parts = parts + [ast.Constant(value='&')]       # the '&' comes from the join
+        elif sep_of[n.id] not in (None, '') or len(parts) != 4:
+            if sep_of[n.id] is not None and len(parts) in (3, 4):
+                run.fail('pairs are rendered as key=value and joined with "&"', f, n.ast,
+                         witness=['the pieces are joined with %r' % sep_of[n.id], 'a piece is %s' % short(pair_of[n.id], 60)],
+                         runtime_witness='to_query_str({"a": 1, "b": 2}) is not "?a=1&b=2"')
+                continue
             raise UnknownIdiom('%s: accumulation %s' % (TO_QS, short(n.ast)))
         k, eq, v, amp = parts
         n_pairs += 1
